@@ -68,6 +68,26 @@ func mentions(n ast.Node, names map[string]bool) bool {
 	return found
 }
 
+// mentionsDrop: n mentions projected-away state, by identifier or as a receiver
+// field that folds to one.
+func (c *canon) mentionsDrop(n ast.Node) bool {
+	found := false
+	ast.Inspect(n, func(m ast.Node) bool {
+		switch x := m.(type) {
+		case *ast.Ident:
+			if c.drop[x.Name] {
+				found = true
+			}
+		case *ast.SelectorExpr:
+			if id, ok := x.X.(*ast.Ident); ok && id.Name == c.recv && c.recv != "" && c.drop[c.fold["recv."+x.Sel.Name]] {
+				found = true
+			}
+		}
+		return !found
+	})
+	return found
+}
+
 type canon struct {
 	recv  string
 	drop  map[string]bool
@@ -83,6 +103,10 @@ func (c *canon) droppable(e ast.Expr) bool {
 	case *ast.Ident:
 		return c.drop[x.Name]
 	case *ast.SelectorExpr:
+		// a receiver field that is folded to a dropped identifier (recv.Partial -> partial) is dropped state too
+		if id, ok := x.X.(*ast.Ident); ok && id.Name == c.recv && c.recv != "" && c.drop[c.fold["recv."+x.Sel.Name]] {
+			return true
+		}
 		return c.droppable(x.X)
 	case *ast.ParenExpr:
 		return c.droppable(x.X)
@@ -197,7 +221,7 @@ func (c *canon) stmt(s ast.Stmt) ast.Stmt {
 		if len(x.Lhs) == len(x.Rhs) {
 			as := &ast.AssignStmt{Tok: x.Tok}
 			for i := range x.Lhs {
-				if c.droppable(x.Lhs[i]) || c.droppable(x.Rhs[i]) || mentions(x.Lhs[i], c.drop) {
+				if c.droppable(x.Lhs[i]) || c.droppable(x.Rhs[i]) || c.mentionsDrop(x.Lhs[i]) {
 					continue
 				}
 				as.Lhs = append(as.Lhs, c.expr(x.Lhs[i]))
@@ -208,17 +232,17 @@ func (c *canon) stmt(s ast.Stmt) ast.Stmt {
 			}
 			return as
 		}
-		if mentions(x, c.drop) {
+		if c.mentionsDrop(x) {
 			return nil
 		}
 		return &ast.AssignStmt{Lhs: c.exprs(x.Lhs), Tok: x.Tok, Rhs: c.exprs(x.Rhs)}
 	case *ast.ExprStmt:
-		if mentions(x, c.drop) {
+		if c.mentionsDrop(x) {
 			return nil
 		}
 		return &ast.ExprStmt{X: c.expr(x.X)}
 	case *ast.IncDecStmt:
-		if mentions(x, c.drop) {
+		if c.mentionsDrop(x) {
 			return nil
 		}
 		return &ast.IncDecStmt{X: c.expr(x.X), Tok: x.Tok}
@@ -227,7 +251,7 @@ func (c *canon) stmt(s ast.Stmt) ast.Stmt {
 	case *ast.BlockStmt:
 		return c.block(x)
 	case *ast.IfStmt:
-		if mentions(x.Cond, c.drop) {
+		if c.mentionsDrop(x.Cond) {
 			return nil // a decision only the richer sibling makes
 		}
 		is := &ast.IfStmt{Cond: c.expr(x.Cond), Body: c.block(x.Body)}
@@ -282,7 +306,7 @@ func (c *canon) stmt(s ast.Stmt) ast.Stmt {
 		}
 		return ss
 	case *ast.DeclStmt:
-		if mentions(x, c.drop) {
+		if c.mentionsDrop(x) {
 			return nil
 		}
 		return x
@@ -409,6 +433,7 @@ func Check(p *core.Prog, r *core.Report, pr Pair) {
 				return
 			}
 		}
+		copyProp(cb, fd.Recv != nil && len(fd.Recv.List) == 1 && !isStar(fd.Recv.List[0].Type))
 		alphaRename(cb, fd, pr.From != "")
 		sortCommutative(cb)
 		sortIndependent(cb)
@@ -713,4 +738,9 @@ func sortIndependent(n ast.Node) {
 		}
 		return true
 	})
+}
+
+func isStar(e ast.Expr) bool {
+	_, ok := ast.Unparen(e).(*ast.StarExpr)
+	return ok
 }
